@@ -112,13 +112,14 @@ def make_env(rng):
     return env
 
 
-def build_and_eval(src, envs):
+def build_and_eval(src, envs, reverse=False):
     """the implementation: a model with the formula as a general propensity, an assignment rule right-hand
-    side and a parsed growth law; returns per env (propensity, volume propensity, parsed term evaluate)."""
+    side and a parsed growth law; returns per env (propensity, volume propensity, parsed term evaluate).
+    reverse: the same species and parameters declared in the opposite order."""
     from bioscrape.types import Model
-    pars = {p: 1.0 for p in PARAMS}
+    pars = {p: 1.0 for p in (list(reversed(PARAMS)) if reverse else PARAMS)}
     pars.update({"pz_rule": 1.0, "pw_rule": 1.0})
-    M = Model(species=list(SPECIES) + ["Z", "W"], parameters=pars,
+    M = Model(species=(list(reversed(SPECIES)) if reverse else list(SPECIES)) + ["Z", "W"], parameters=pars,
               reactions=[([], ["A"], "general", {"rate": src})],
               rules=[("assignment", {"equation": "Z = " + src}), ("assignment", {"equation": "pz_rule = " + src}),
                      ("ode", {"equation": src, "target": "W"}), ("ode", {"equation": src, "target": "pw_rule"})],
@@ -169,12 +170,20 @@ def one_expr(ctx, rng, depth, tree=None):
     ctx.begin_case({"src": src})
     try:
         M, prop, got = build_and_eval(src, envs)
+        # the same text parsed again in a model that declares the same names in the opposite order: identifiers are
+        # resolved in the model at hand (the first environment is enough)
+        M_r, prop_r, got_r = build_and_eval(src, envs[:1], reverse=True)
     except Exception as e:
         # rejecting a formula at build time is allowed by the property (it is never given another value);
         # e.g. sympy rewrites abs(exp(p)) to exp(re(p)), which bioscrape cannot represent
         ctx.count("rejected_at_build_time:" + type(e).__name__)
         return
     ops = tree.ops({})
+    a_r, av_r = got_r[0][0], got_r[0][1]
+    if (relerr(a_r, wants[0][0]) > 1e-9 and abs(a_r - wants[0][0]) > 1e-9) or (relerr(av_r, wants[0][1]) > 1e-9 and abs(av_r - wants[0][1]) > 1e-9):
+        ctx.violation("value/declaration-order", "'%s' in a model that declares the same species and parameters in the opposite order evaluates to %r (volume form %r), "
+                      "the written formula means %r (%r)" % (src, a_r, av_r, wants[0][0], wants[0][1]), {"src": src, "env": envs[0], "reversed_declaration": True})
+        return
     const = all(abs(w[1] - wants[0][1]) < 1e-15 for w in wants)
     jobs = []
     sl, pl = M.get_species_list(), M.get_param_list()
